@@ -41,6 +41,11 @@ package contracts
 //@   ensures b.view == old(b.view) ++ unit(c)
 //@   ensures err == nil
 
+//@ func bytes.(*Buffer).Reset :: b
+//@   trusted
+//@   assigns b.view
+//@   ensures len(b.view) == 0
+
 //@ func bytes.(*Buffer).Truncate :: b, n
 //@   trusted
 //@   requires [truncate-in-range] 0 <= n && n <= len(b.view)
@@ -61,8 +66,8 @@ package contracts
 
 //@ func errors.New :: text -> err
 //@   trusted
-//@   pure
-//@   ensures err != nil
+//@   assigns nothing
+//@   ensures err != nil && isptr(errors.errorString, err) && fresh(unboxptr(errors.errorString, err))
 
 //@ func strings.HasPrefix :: s, prefix -> result
 //@   trusted
